@@ -78,7 +78,8 @@ def generic(mod, pid, args, seed, t0):
     return 1 if vs else 0
   if hasattr(mod, 'precheck'):
     mod.precheck(repo)
-  T = mod.build()
+  import inspect
+  T = mod.build(repo) if inspect.signature(mod.build).parameters else mod.build()
   tmo = args.timeout or (120 if args.tier == 'thorough' else 30)
   per_fn, canaries, wall, ex = run.verify_theory(T, repo, timeout_s=tmo)
   lock = report.load_lock()
